@@ -58,6 +58,13 @@ let () =
   register "c16clean" (fun args -> match args with
     | [h] -> c16_b (c16_clean (unhexbytes h))
     | _ -> "?args");
+  register "c16names" (fun args -> match args with
+    | [names; mn; n] ->
+      let nl = if names = "-" then [] else List.map unhexbytes (String.split_on_char ',' names) in
+      (match c16_alloc_names (nat_of_int (int_of_string n)) nl (n_of_int (int_of_string mn)) with
+       | None -> "logic"
+       | Some l -> if l = [] then "-" else String.concat "," (List.map hexbytes l))
+    | _ -> "?args");
   register "c16sem" (fun args -> match args with
     | [h] -> (match c16_sem (unhexbytes h) with
               | None -> "invalid"
